@@ -121,6 +121,20 @@ DictGet(d, key) ==
     IF idx = {} THEN [found |-> FALSE, v |-> VNone]
     ELSE [found |-> TRUE, v |-> d.v[CHOOSE i \in idx : TRUE]]
 
+RECURSIVE MkDict(_, _, _, _)
+MkDict(ks, vs, accK, accV) ==
+    IF ks = <<>> THEN Ok(VDict(accK, accV))
+    ELSE LET k == Head(ks) IN
+         IF ~Hashable(k) THEN Err("TypeError")
+         ELSE IF k.t = "undef" /\ UKof(k, UK) = "strict" THEN Err("UndefinedError")      \* hash(StrictUndefined)
+         ELSE IF HasUndef(k) /\ UK = "strict" THEN Err("EXCLUDED")
+         ELSE LET eqs == [i \in 1..Len(accK) |-> PyEq(accK[i], k)] IN
+              IF \E i \in 1..Len(accK) : eqs[i] = "?" THEN Err("EXCLUDED")
+              ELSE IF \E i \in 1..Len(accK) : eqs[i] = "T"
+                   THEN LET i == CHOOSE i \in 1..Len(accK) : eqs[i] = "T" IN
+                        MkDict(Tail(ks), Tail(vs), accK, [accV EXCEPT ![i] = Head(vs)])
+                   ELSE MkDict(Tail(ks), Tail(vs), Append(accK, k), Append(accV, Head(vs)))
+
 StrKey(n) == VStr(<<Seg(n, 0, "lit")>>, FALSE)
 KeyName(v) == IF v.t = "str" /\ PlainText(v.s) THEN TextOf(v.s) ELSE "?"
 
@@ -151,6 +165,9 @@ PyAttr(s, v, a) ==
                          ELSE IF a = "cycle" THEN [found |-> TRUE, v |-> [t |-> "loopcycle", l |-> v]]
                          ELSE IF a = "changed" THEN [found |-> TRUE, v |-> [t |-> "loopchanged", l |-> v]]
                          ELSE [found |-> FALSE, v |-> VNone]
+      [] v.t = "dict" -> IF a \in {"items", "keys", "values", "get"} /\ ~DictGet(v, StrKey(a)).found
+                         THEN [found |-> TRUE, v |-> [t |-> "dictm", d |-> v, m |-> a]]
+                         ELSE [found |-> FALSE, v |-> VNone]
       [] v.t = "cycler" -> IF a = "current" THEN [found |-> TRUE, v |-> s.ns[v.id]["items"].v[s.ns[v.id]["pos"].n + 1]]
                            ELSE IF a \in {"next", "reset"} THEN [found |-> TRUE, v |-> [t |-> "cyclerm", id |-> v.id, m |-> a]]
                            ELSE [found |-> FALSE, v |-> VNone]
@@ -169,7 +186,7 @@ PyAttr(s, v, a) ==
 
 PyItem(s, v, key) ==
     CASE v.t = "dict" -> IF Hashable(key) THEN DictGet(v, key) ELSE [found |-> FALSE, v |-> VNone]
-      [] v.t = "list" ->
+      [] v.t = "list" /\ ~IsView(v) ->
            IF key.t = "int" THEN
                LET n == Len(v.v)
                    i == IF key.n < 0 THEN n + key.n + 1 ELSE key.n + 1 IN
@@ -202,13 +219,14 @@ GetAttr(s, v, a) ==
                         THEN [found |-> FALSE, v |-> VNone] ELSE pi0 IN
               IF pi.found /\ pi.v.t = "raiser" THEN Fail(s, "Raised:" \o pi.v.id)
               ELSE IF pi.found THEN R(pi.v, s)
-              ELSE IF v.t \in {"dict", "list", "str"} THEN Fail(s, "EXCLUDED")   \* builtin methods: not modelled
+              ELSE IF v.t \in {"dict", "list", "str"} THEN Fail(s, "EXCLUDED")   \* other builtin methods: not modelled
               ELSE IF ClosedAttrs(v) THEN R(UndefAttr(v, a), s)
               ELSE Fail(s, "EXCLUDED")
 
 GetItem(s, v, key) ==
     IF v.t = "undef" THEN
         IF UKof(v, UK) = "chainable" THEN R(v, s) ELSE Fail(s, "UndefinedError")
+    ELSE IF IsView(v) THEN Fail(s, "EXCLUDED")
     ELSE IF key.t = "undef" /\ v.t \in {"dict", "list", "obj"} THEN
          \* an undefined key is just a key that is not found (hashable, equal only to undefined)
          R(UndefAttr(v, "?"), s)
@@ -283,10 +301,12 @@ Ev(e, s, E) ==
            LET r == EvList(e.items, s, E) IN
            IF Bad(r) THEN R(VNone, r.S) ELSE R([t |-> "list", v |-> r.v, tup |-> Fld(e, "tup", FALSE)], r.S)
       [] e.k = "dict" ->
-           LET ks == EvList(e.keys, s, E) IN
-           IF Bad(ks) THEN R(VNone, ks.S)
-           ELSE LET vs == EvList(e.vals, ks.S, E) IN
-                IF Bad(vs) THEN R(VNone, vs.S) ELSE R(VDict(ks.v, vs.v), vs.S)
+           \* a Python dict display: k1, v1, k2, v2 ... are evaluated in that order, then the pairs are
+           \* inserted left to right (an equal key keeps its first position and takes the last value)
+           LET n == Len(e.keys)
+               kv == EvList([j \in 1..2 * n |-> IF j % 2 = 1 THEN e.keys[(j + 1) \div 2] ELSE e.vals[j \div 2]], s, E) IN
+           IF Bad(kv) THEN R(VNone, kv.S)
+           ELSE Lift(MkDict([j \in 1..n |-> kv.v[2 * j - 1]], [j \in 1..n |-> kv.v[2 * j]], <<>>, <<>>), kv.S)
       [] e.k = "bin" ->
            LET a == Ev(e.a, s, E) IN
            IF Bad(a) THEN a
@@ -419,6 +439,19 @@ CallValue(f, args, kw, s, E) ==
                       [s EXCEPT !.ns = Append(@, ("sep" :> (IF args = <<>> THEN VStr(<<Seg(", ", 0, "lit")>>, FALSE) ELSE args[1]))
                                                    @@ ("used" :> VBool(FALSE)))])
            ELSE Fail(s, "EXCLUDED")
+      [] f.t = "dictm" ->
+           \* the dict methods templates commonly use
+           IF kw.n # <<>> THEN Fail(s, "TypeError")
+           ELSE IF f.m = "items" THEN (IF args # <<>> THEN Fail(s, "TypeError")
+                                       ELSE R(VView([j \in 1..Len(f.d.k) |-> VTuple(<<f.d.k[j], f.d.v[j]>>)]), s))
+           ELSE IF f.m = "keys" THEN (IF args # <<>> THEN Fail(s, "TypeError") ELSE R(VView(f.d.k), s))
+           ELSE IF f.m = "values" THEN (IF args # <<>> THEN Fail(s, "TypeError") ELSE R(VView(f.d.v), s))
+           ELSE \* get(key[, default])
+                IF Len(args) \notin {1, 2} THEN Fail(s, "TypeError")
+                ELSE IF ~Hashable(args[1]) THEN Fail(s, "TypeError")
+                ELSE IF HasUndef(args[1]) /\ UK = "strict" THEN Fail(s, "EXCLUDED")
+                ELSE LET g == DictGet(f.d, args[1]) IN
+                     IF g.found THEN R(g.v, s) ELSE R(IF Len(args) = 2 THEN args[2] ELSE VNone, s)
       [] f.t = "joiner" ->
            IF args # <<>> \/ kw.n # <<>> THEN Fail(s, "TypeError")
            ELSE IF s.ns[f.id]["used"].b THEN R(s.ns[f.id]["sep"], s)
@@ -655,7 +688,7 @@ ApplyTest(n, v, args, s, E) ==
                            ELSE IF v.t = "undef" /\ UKof(v, UK) = "strict" THEN Fail(s, "UndefinedError")
                            ELSE R(VBool(v.t \in {"str", "list", "dict", "undef"}), s)
       [] n = "callable" -> IF v.t \in {"obj", "module", "ns", "loop", "undef"} THEN Fail(s, "EXCLUDED")
-                           ELSE R(VBool(v.t \in {"fn", "macro", "builtin", "bref", "loopcycle", "loopchanged", "joiner", "cyclerm"}), s)
+                           ELSE R(VBool(v.t \in {"fn", "macro", "builtin", "bref", "loopcycle", "loopchanged", "joiner", "cyclerm", "dictm"}), s)
       [] n \in {"odd", "even"} ->
            IF v.t = "undef" THEN Fail(s, "UndefinedError")
            ELSE IF IsNum(v) THEN R(VBool((PyMod(NumOf(v), 2) = 1) = (n = "odd")), s)
@@ -914,6 +947,7 @@ Ex(st, s, E) ==
                 IF Bad(t) THEN t.S
                 ELSE \* an autoescape block is not a scope: assignments inside are visible after it
                      ExSeq(st.body, t.S, [E EXCEPT !.auto = t.v.b])
+      [] st.k = "do" -> LET r == Ev(st.e, s, E) IN r.S       \* {% do expr %}: evaluated for its effects only
       [] st.k = "break" -> [s EXCEPT !.flow = "break"]
       [] st.k = "continue" -> [s EXCEPT !.flow = "continue"]
       [] st.k = "block" ->
